@@ -224,7 +224,7 @@ for n in ("sq10", "sq12", "r8x18", "r8x32"):
     reg("fd_strict_" + n, "place", ["C08", "C05"], cap=3600, mem_gb=24, tier=T, role="attempt", stubbing=True, unwindset=[("btree", 4)],
         bounds="%s: every pixel symbolic; accepted => re-rendering reproduces it; SymbolList::all / block_setup / has_padding_modules stubbed to this one size" % n, encodes=TFB)
 for n in ("r8x32", "sq12", "sq32"):
-    reg("fd_flip_" + n, "place", ["C08", "C05"], cap=2400, mem_gb=16, tier=Q if n == "r8x32" else T, role="lemma" if n == "r8x32" else "attempt", stubbing=True, unwindset=[("btree", 4)],
+    reg("fd_flip_" + n, "place", ["C08", "C05"], cap=2400, mem_gb=16, tier=Q if n != "sq32" else T, role="lemma" if n != "sq32" else "attempt", stubbing=True, unwindset=[("btree", 4)],
         bounds="%s: the rendering of the empty symbol with ONE module flipped at a symbolic position (every single-module deviation): data module -> accepted with that entry changed; finder / clock / alignment / fixed-corner module -> rejected; size lookup stubbed to this size" % n, encodes=TFB)
 for n in ("r8x32", "sq12"):
     reg("fd_parse_" + n, "place", ["C08", "C01"], cap=3600, mem_gb=16, tier=Q if n == "r8x32" else T, role="lemma" if n == "r8x32" else "attempt", stubbing=True, unwindset=[("btree", 4)], qprops=["C08"],
